@@ -211,7 +211,14 @@ class RankRunner:
                     sd = self.pre.state_dict()
                     rec['factors'] = {n: {k: (None if v is None else v.detach().clone()) for k, v in f.items()}
                                       for n, f in sd['layers'].items()}
-                with torch.no_grad():
+                if c.get('update') == 'noise':
+                    # gradient-independent drift (identical on every rank and in every run of a metamorphic pair)
+                    gen = torch.Generator().manual_seed(op['seed'] * 7 + 12345)
+                    with torch.no_grad():
+                        for p in self.model.parameters():
+                            p.add_(0.05 * torch.randn(p.shape, generator=gen, dtype=torch.float64).to(p.dtype))
+                else:
+                  with torch.no_grad():
                     for p in self.model.parameters():
                         if p.grad is not None and torch.isfinite(p.grad).all():
                             # bounded update (identical on every rank because the gradients are)
